@@ -299,13 +299,19 @@ def build_odf(sc):
 
 
 # ---- EPUB ----
+def iri(path):
+    """IRI reference for a package path (EPUB manifest / XHTML): characters that are reserved in URLs are percent-encoded
+    (space, %, #, ?), everything else -- '+', non-ASCII -- stays as it is."""
+    return "".join("%{:02X}".format(ord(ch)) if ch in ' %#?"<>' else ch for ch in path)
+
+
 def build_epub(sc, opf="OEBPS/content.opf"):
     opf_dir = opf.rsplit("/", 1)[0] if "/" in opf else ""
     items, spine, files = [], [], {}
     k = 0
     for n, anchors in enumerate(sc.units, start=1):
         ch = (opf_dir + "/" if opf_dir else "") + f"ch{n}.xhtml"
-        imgs = "".join(f'<img src="{ref("relative", opf_dir, a.media) if a.kind != "external" else "http://example.invalid/x.png"}" alt="d"/>' for a in anchors)
+        imgs = "".join(f'<img src="{iri(ref("relative", opf_dir, a.media)) if a.kind != "external" else "http://example.invalid/x.png"}" alt="d"/>' for a in anchors)
         files[ch] = f'<?xml version="1.0"?><html xmlns="http://www.w3.org/1999/xhtml"><head><title>C{n}</title></head><body><p>chapter {n}</p>{imgs}</body></html>'
         items.append(f'<item id="ch{n}" href="ch{n}.xhtml" media-type="application/xhtml+xml"/>')
         spine.append(f'<itemref idref="ch{n}"/>')
@@ -314,7 +320,7 @@ def build_epub(sc, opf="OEBPS/content.opf"):
                 continue
             k += 1
             ext = a.media.rsplit(".", 1)[-1]
-            items.append(f'<item id="img{k}" href="{ref(a.style, opf_dir, a.media)}" media-type="{CT.get(ext, "image/" + ext)}"/>')
+            items.append(f'<item id="img{k}" href="{iri(ref(a.style, opf_dir, a.media))}" media-type="{CT.get(ext, "image/" + ext)}"/>')
     files[opf] = (f'<?xml version="1.0"?><package xmlns="http://www.idpf.org/2007/opf" version="3.0"><metadata xmlns:dc="http://purl.org/dc/elements/1.1/">'
                   f'<dc:title>t</dc:title></metadata><manifest>{"".join(items)}</manifest><spine>{"".join(spine)}</spine></package>')
     files["META-INF/container.xml"] = (f'<?xml version="1.0"?><container version="1.0" xmlns="urn:oasis:names:tc:opendocument:xmlns:container"><rootfiles>'
@@ -503,7 +509,7 @@ def first_failure(scs, aspects, dedup=False):
 
 
 # ---- PDF (pypdf writer; images are DCT streams so that get_data() is the embedded JPEG) ----
-def build_pdf(sc, bad_width_first=False):
+def build_pdf(sc, bad_width_first=False, chains=None):
     from pypdf import PdfWriter
     from pypdf.generic import ArrayObject, DictionaryObject, NameObject, NumberObject, StreamObject, TextStringObject
     w = PdfWriter()
@@ -526,7 +532,17 @@ def build_pdf(sc, bad_width_first=False):
             so[NameObject("/Height")] = NumberObject(size[1])
             so[NameObject("/ColorSpace")] = NameObject("/DeviceRGB")
             so[NameObject("/BitsPerComponent")] = NumberObject(8)
-            so[NameObject("/Filter")] = NameObject("/DCTDecode")
+            chain = (chains or {}).get(k)
+            if chain:
+                import binascii
+                import zlib
+                payload = data
+                for f in reversed(chain[:-1]):          # encode for every outer filter (they are undone first when decoding)
+                    payload = zlib.compress(payload) if f == "/FlateDecode" else (binascii.hexlify(payload) + b">")
+                so._data = payload
+                so[NameObject("/Filter")] = ArrayObject([NameObject(f) for f in chain])
+            else:
+                so[NameObject("/Filter")] = NameObject("/DCTDecode")
             xo[NameObject(f"/Im{k}")] = w._add_object(so)
             ops_.append(f"q 50 0 0 50 {10 * k} 10 cm /Im{k} Do Q")
         res = DictionaryObject()
@@ -960,9 +976,56 @@ def witness(kind, fmt):
         sc = Scenario(fmt, [[Anchor(f"{md}/a.png")], [Anchor(f"{md}/a.png", "relative", "dangling")], [Anchor(f"{md}/b.gif")]],
                       {f"{md}/a.png": A, f"{md}/b.gif": B}, note="the picture on unit 2 uses an r:embed id that only the relationship part of unit 1 defines")
         return first_failure([sc], ("no-foreign", "bytes", "unit", "numbering") if fmt != "pptx" else ("no-foreign", "bytes", "unit"))
+    if kind == "pdf-filter-chain":
+        # the same JPEG behind different (legal) filter chains: a one-element array, deflated, ASCII-hex
+        sc = pdf_scenario([[(30, 20), (31, 21), (32, 22), (33, 23)]])
+        chains = {1: ["/DCTDecode"], 2: ["/FlateDecode", "/DCTDecode"], 3: ["/ASCIIHexDecode", "/DCTDecode"], 4: ["/ASCIIHexDecode", "/FlateDecode", "/DCTDecode"]}
+        obs = observe(read("pdf", build_pdf(sc, chains=chains)))
+        exp = expected(sc)
+        got = [(o[1], o[0] == e[0]) for o, e in zip(obs, exp)]
+        if len(obs) != len(exp) or any(g != ("image/jpeg", True) for g in got):
+            return {"target": "pdf: iterate_images()", "aspect": "content-type", "inputs": dict(sc.describe(), filter_chains={str(k): v for k, v in chains.items()}),
+                    "expected": "4 images, each image/jpeg with the bytes of the embedded JPEG", "observed": f"{len(obs)} images: (content type, bytes identical) = {got}"}
+        return None
+    if kind == "media-elsewhere":
+        # the package, not a folder name, says where a picture lives: media parts outside the conventional media directory
+        top = md.split("/")[0]
+        places = {"docx": ["word/pics/a.png", "images/b.gif", "word/media/deep/er/c.png"], "pptx": ["ppt/img/a.png", "images/b.gif", "ppt/slides/c.png"],
+                  "xlsx": ["xl/images/a.png", "images/b.gif", "xl/drawings/c.png"], "epub": ["OEBPS/pix/a.png", "cover.gif", "OEBPS/c.png"]}.get(
+            fmt, ["media/a.png", "b.gif", "Pictures/sub/c.png", "Thumbnails/d.png"])
+        scs = []
+        for variant in (places, places[:1], places[1:2]):
+            media, anchors = {}, []
+            for k, part in enumerate(variant, start=1):
+                media[part] = _img(k, part.rsplit(".", 1)[-1])
+                anchors.append(Anchor(part))
+            units = [anchors] if fmt in ("docx", "odt") else [anchors[:1], anchors[1:]]
+            scs.append(Scenario(fmt, units, media, note="media parts outside the conventional media directory"))
+        return first_failure(scs, ("resolution", "bytes", "unit"), dedup=fmt in ("odt", "odg"))
+    if kind in ("special-names", "percent-names"):
+        # part names with characters that are ordinary in a ZIP member name but special in a reference: '+' and ',' are literal
+        # everywhere; space, '%' and '#' must be percent-encoded in an IRI reference (EPUB) and decoded by the reader
+        plain = ["fig+1.png", "a,b(1).gif", "bild-\u00e4.png"]
+        pct = ["my pic.png", "100%.gif", "a#b.png"]
+        names = pct if kind == "percent-names" else (plain + (pct if fmt == "epub" and False else []))
+        media, anchors = {}, []
+        for k, nm in enumerate(names, start=1):
+            part = f"{md}/{nm}"
+            media[part] = _img(k, nm.rsplit(".", 1)[-1])
+            anchors.append(Anchor(part))
+        sc = Scenario(fmt, [anchors], media, note="part names with characters that are special in references")
+        return first_failure([sc], ("resolution", "bytes"))
     if kind == "odf-dot-href":
         return first_failure([simple(fmt, ["dot"], 1, 1)], ("resolution",))
     if kind == "resolution":
+        if fmt in ("docx", "pptx", "xlsx", "epub"):
+            r0 = witness("special-names", fmt)
+            if r0:
+                return r0
+        if fmt == "epub":
+            r0 = witness("percent-names", fmt)
+            if r0:
+                return r0
         scs = [simple(fmt, [st], 1 if fmt in ("docx", "odt") else 2, 2) for st in (("relative", "parent", "absolute", "dot") if fmt not in ("odt", "odp", "ods", "odg") else ("relative", "dot"))]
         if fmt in ("docx", "pptx", "epub"):
             # media part in a sub-directory of the usual media directory, and a decoy with the same base name directly in it
@@ -1040,6 +1103,14 @@ def search(ob, wit=None):
     if "/numbering#" in ob:
         # the number an image carries: documents whose pictures are all present, one unit (gaps and restarts have their own obligations)
         return sweep(fmt, ("numbering",), max_units=1, kinds=("embedded",))
+    if "content-type-of-the-last-filter" in ob or (fmt == "pdf" and "/content-type#" in ob):
+        return witness("pdf-filter-chain", "pdf")
+    if "size-is-the-declared-width-and-height" in ob:
+        return first_failure([pdf_scenario([[(30, 20), (7, 9)]]), pdf_scenario([[(1, 300)]])], ("pixel-size", "bytes"))
+    if "number-and-page-are-the-arguments" in ob:
+        return first_failure([pdf_scenario([[(30, 20), (7, 9)]])], ("numbering", "unit")) or first_failure([pdf_scenario([[(3, 2)], [(4, 5)]])], ("unit",))
+    if "/completeness#" in ob:
+        return witness("media-elsewhere", fmt) or sweep(fmt, ("resolution", "bytes"), kinds=("embedded",))
     if "/pixel-size#" in ob:
         return witness("pixel-size", fmt)
     if "/order#" in ob:
@@ -1088,6 +1159,8 @@ def exclusion_sweep(kind, fmt):
     if kind == "order":
         return first_failure(gen_scenarios(fmt, 7, 12, styles=("relative",), kinds=("embedded",), share=False, max_units=1 if fmt == "epub" else 3),
                              ("resolution", "bytes"), dedup=fmt in ("odt", "odg"))
+    if kind == "percent-names":
+        return witness("special-names", fmt) or first_failure(gen_scenarios(fmt, 10, 12, styles=("relative", "parent", "absolute", "dot"), kinds=("embedded", "missing")), ("resolution", "bytes"))
     if kind in ("slide-target", "drawing-dir", "sheet-order"):
         return first_failure(gen_scenarios(fmt, 9, 12, styles=("relative", "absolute"), kinds=("embedded", "missing")), ("resolution", "bytes", "unit"))
     if kind == "odf-dot-href":
